@@ -91,10 +91,11 @@ pub struct Cfg {
 
 impl Cfg {
     pub fn scale(&self, quick: u64, thorough: u64) -> u64 {
-        if self.thorough {
-            thorough
-        } else {
-            quick
+        let n = if self.thorough { thorough } else { quick };
+        // sanitizer sub-runs (valgrind is ~25x slower) execute a fixed fraction of the workload
+        match std::env::var("VCHECK_SCALE_DIV").ok().and_then(|d| d.parse::<u64>().ok()) {
+            Some(d) if d > 1 => (n / d).max(2),
+            _ => n,
         }
     }
 }
